@@ -91,8 +91,18 @@ def check_model_case(case, ctx):
     ctx.count('compiled')
     if frozen:
         ctx.count('compiled.with-frozen-values')
-    for args in case['args']:
+    for n_call, args in enumerate(case['args']):
         lib_args = [_lib_arg(a) for a in args]
+        if n_call % 2 and case.get('disturb'):
+            # the model keeps working between two calls of the function: a
+            # calculation with other populated cells overridden
+            try:
+                m.calculate(inputs={gw.key_of(desc, *k): wbrun.py_value(v)
+                                    for k, v in case['disturb'][n_call // 2 % len(
+                                        case['disturb'])]})
+                ctx.count('monitor.model-calculated-between-calls')
+            except Exception:
+                ctx.count('disturbance-raised')
         ctx.case((wbrun.digest({}), in_ids, out_ids, args, case.get('id')))
         w = {'case': dict(case, args=[args]), 'inputs': in_ids,
              'outputs': out_ids, 'arguments': args,
@@ -187,11 +197,37 @@ def make_model_case(seed, i):
     if not forms or not consts:
         return None
     cases = []
+    # unpopulated cells that formulas read directly and that also lie inside
+    # a rectangle some formula reads
+    ev = rw.Evaluator(desc)
+    direct = set()
+    def walk(t):
+        if not isinstance(t, list) or not t:
+            return
+        if t[0] == 'cell':
+            direct.add(tuple(t[1:5]))
+        elif t[0] == 'name' and desc['names'][t[1]][0] == 'cell':
+            direct.add(tuple(desc['names'][t[1]][1:5]))
+        elif t[0] == 'bin':
+            walk(t[2]), walk(t[3])
+        elif t[0] in ('un', 'pct'):
+            walk(t[-1])
+        elif t[0] == 'call':
+            for a in t[2]:
+                walk(a)
+    for k in forms:
+        walk(ev.cells[k]['f'])
+    blanks = sorted(
+        (b, s, c, r) for b, s, c1, r1, c2, r2 in _rect_nodes(desc)
+        for c in range(c1, c2 + 1) for r in range(r1, r2 + 1)
+        if (b, s, c, r) in direct and not ev.populated((b, s, c, r)))
     for j in range(3):
         I = []
         for _ in range(rng.randint(1, 4)):
             t = rng.random()
-            if t < 0.6:
+            if blanks and t < 0.15:
+                I.append(['cell', list(rng.choice(blanks))])
+            elif t < 0.6:
                 I.append(['cell', list(rng.choice(consts))])
             elif t < 0.75 and len(forms) > 2:
                 I.append(['cell', list(rng.choice(forms[:len(forms) // 2 + 1]))])
@@ -223,8 +259,22 @@ def make_model_case(seed, i):
         kinds = [x[0] for x in I]
         keys = [tuple(x[1]) for x in I]
         args = [_args_for(rng, desc, keys, kinds) for _ in range(6)]
+        covered = set()
+        for x in I:
+            if x[0] == 'cell':
+                covered.add(tuple(x[1]))
+            elif x[0] == 'range':
+                b_, s_, c1, r1, c2, r2 = x[1]
+                covered |= {(b_, s_, c, r) for c in range(c1, c2 + 1)
+                            for r in range(r1, r2 + 1)}
+            else:
+                covered.add(tuple(desc['names'][x[1][0]][1:5]))
+        others = [k for k in consts if k not in covered]
+        disturb = [[[list(k), rng.choice((100.0, -7.0, 55.5, 'txt', True))]
+                    for k in rng.sample(others, min(len(others), rng.randint(1, 3)))]
+                   for _ in range(3)] if others else []
         cases.append({'kind': 'model', 'id': '%s/%s' % (i, j), 'desc': desc,
-                      'I': I, 'O': O, 'args': args,
+                      'I': I, 'O': O, 'args': args, 'disturb': disturb,
                       'path': 'xlsx' if (i % 7 == 0 and j == 0) else 'dict'})
     return cases
 
